@@ -396,10 +396,13 @@ def one_case(res, rng, npr, ests, selfcheck):
     M = op_matrix(terms, n)
     S = sum(abs(c) for _, c in terms)
     p = rand_point(rng, cs.n_in)
+    # the parameter vector is handed over as a list, a tuple or a float64 numpy array (what optimizers pass)
+    pkind = rng.choice(["list", "list", "tuple", "ndarray"])
+    p_arg = {"list": list, "tuple": tuple, "ndarray": lambda v: np.array(v, dtype=float)}[pkind](p)
     ename = rng.choice(list(ests))
     est = ests[ename]
     feats = cs.features()
-    inp = {"circuit": cs.desc(), "op": [(list(pp), complex(c)) for pp, c in terms], "params": p,
+    inp = {"circuit": cs.desc(), "op": [(list(pp), complex(c)) for pp, c in terms], "params": p, "params_container": pkind,
            "estimator": ename, "compiled": compiled, "features": feats}
     key = str(inp)
     E0, g_ex, H_ex = cs.derivs(p, M)
@@ -421,7 +424,7 @@ def one_case(res, rng, npr, ests, selfcheck):
     # ---- parameter-shift gradient
     res.count(("grad", key), bucket="gradient:parameter-shift:" + "+".join(feats))
     try:
-        out = create_parameter_shift_gradient_estimator(est)(op, cs.build_state(compiled), p)
+        out = create_parameter_shift_gradient_estimator(est)(op, cs.build_state(compiled), p_arg)
         vals = np.array([complex(x) for x in out.values])
         if vals.shape != (cs.n_in,):
             res.fail(f"sweep:gradient:parameter-shift:{sfx}:length", f"{len(vals)} values for {cs.n_in} parameters", inp)
@@ -440,7 +443,7 @@ def one_case(res, rng, npr, ests, selfcheck):
     # ---- parameter-shift hessian
     res.count(("hess", key), bucket="hessian:parameter-shift:" + "+".join(feats))
     try:
-        out = create_parameter_shift_hessian_estimator(est)(op, cs.build_state(compiled), p)
+        out = create_parameter_shift_hessian_estimator(est)(op, cs.build_state(compiled), p_arg)
         Hv = np.array([[complex(x) for x in row] for row in out.values]).reshape(-1, cs.n_in) \
             if cs.n_in else np.zeros((0, 0))
         if Hv.shape != (cs.n_in, cs.n_in):
@@ -462,7 +465,9 @@ def one_case(res, rng, npr, ests, selfcheck):
     errs = {}
     try:
         for delta in (1e-1, 1e-2, 1e-3):
-            out = create_numerical_gradient_estimator(est, delta)(op, cs.build_state(compiled), p)
+            out = create_numerical_gradient_estimator(est, delta)(op, cs.build_state(compiled), p_arg)
+            if list(p_arg) != list(p):
+                res.fail("sweep:gradient:numerical:mutates-params", "the caller's parameter vector was modified", inp)
             vals = np.array([complex(x) for x in out.values])
             if vals.shape != (cs.n_in,):
                 res.fail("sweep:gradient:numerical:length", f"{len(vals)} values for {cs.n_in} parameters", inp)
